@@ -35,3 +35,17 @@ Qed.
 Theorem map_key_matches_source (m : list (bstr * value)) (k : bstr) :
   src_data_Map_Key value VUndef m k = map_key m k.
 Proof. reflexivity. Qed.
+
+(* the String methods of the scalar kinds, as Model/Values.v's to_string prints them
+   (Undefined.String panics: [Err]; Float.String is strconv.FormatFloat, modelled in Model/Num.v;
+   List.String and Map.String are loops, tied by the correspondence only) *)
+Theorem scalar_string_matches_source (f : nat) (v : value) :
+  match v with
+  | VUndef => to_string (S f) v = match src_data_Undefined_String with Some s => Ok s | None => Err e_undef_string end
+  | VNull => to_string (S f) v = Ok src_data_Null_String
+  | VBool x => to_string (S f) v = Ok (src_data_Bool_String x)
+  | VInt z => to_string (S f) v = Ok (src_data_Int_String z)
+  | VStr s => to_string (S f) v = Ok (src_data_String_String s)
+  | _ => True
+  end.
+Proof. destruct v as [| |x|z|x|s|i l|i m]; try exact I; try reflexivity. destruct x; reflexivity. Qed.
